@@ -259,6 +259,29 @@ MembersOnly(c, P) ==
     \A r \in World(c) : \A j \in DOMAIN P[r + 1] :
         r \in P[r + 1][j].grp /\ (P[r + 1][j].root = -1 \/ P[r + 1][j].root \in P[r + 1][j].grp)
 
+\* executing every collective as a BLOCKING call (a rank proceeds only when
+\* all members of the group have reached the same call) runs every rank to
+\* the end of its sequence; completing a call only enables more calls, so
+\* one greedy run decides it
+Ready(c, P, pc, r) ==
+    LET o == P[r + 1][pc[r + 1]] IN
+    \A q \in o.grp :
+        /\ pc[q + 1] <= Len(P[q + 1])
+        /\ LET o2 == P[q + 1][pc[q + 1]]
+           IN o2.grp = o.grp /\ o2.kind = o.kind /\ o2.root = o.root
+              /\ o2.numel = o.numel
+RECURSIVE RunsToEnd(_, _, _)
+RunsToEnd(c, P, pc) ==
+    LET heads == {r \in World(c) : pc[r + 1] <= Len(P[r + 1])} IN
+    IF heads = {} THEN TRUE
+    ELSE IF \E r \in heads : Ready(c, P, pc, r)
+         THEN LET r == CHOOSE x \in heads : Ready(c, P, pc, x)
+                  g == P[r + 1][pc[r + 1]].grp
+              IN RunsToEnd(c, P, [q \in 1..c.W |->
+                            IF (q - 1) \in g THEN pc[q] + 1 ELSE pc[q]])
+         ELSE FALSE
+NoStallBlocking(c, P) == RunsToEnd(c, P, [q \in 1..c.W |-> 1])
+
 Clauses(c, P) ==
     /\ InvBcastInWorkerGroups(c, P)
     /\ GradBcastInReceiverGroups(c, P)
@@ -275,7 +298,8 @@ Clauses(c, P) ==
 Derived(c) == [r \in 1..c.W |-> Prog(c, r - 1)]
 
 \* design level: the derived protocol satisfies the clauses
-DesignOK == Clauses(C, Derived(C))
+DesignOK == Clauses(C, Derived(C)) /\ NoStallBlocking(C, Derived(C))
+T_NoStallBlocking == NoStallBlocking(C, C.trace)
 \* the recorded executions satisfy each clause (one invariant per clause so
 \* that TLC names the failing one)
 T_InvBcast == InvBcastInWorkerGroups(C, C.trace)
